@@ -123,15 +123,58 @@ def run_seq(seq, kind, d):
     return None
 
 
+def process_history(kind, backend, d):
+    """One Lab object whose tasks execute (and save) in WORKER PROCESSES: what the workers stored must be visible to the
+    same Lab object right after run_tasks returns -- to is_cached AND to cached_tasks -- and so must a later removal."""
+    logging.getLogger('labtech').setLevel(logging.CRITICAL)
+    storage = {'local': d, 'fsspec': LocalFsspec(d)}[kind]
+    lab = labtech.Lab(storage=storage, runner_backend=backend, max_workers=2, continue_on_failure=True)
+    l1, l2 = Leaf(1), Leaf(2)
+    top = Top(l1)
+    model = set()
+
+    def agree(step):
+        got = set(lab.cached_tasks([Leaf, Top, Eph]))
+        if got != model:
+            return f'[{kind}/{backend}] {step}: cached_tasks() == {sorted(map(str, got))}, but the stored entries are {sorted(map(str, model))}'
+        for t in (l1, l2, top):
+            if lab.is_cached(t) != (t in model):
+                return f'[{kind}/{backend}] {step}: is_cached({t}) == {lab.is_cached(t)}, expected {t in model}'
+        return None
+    steps = [('nothing stored yet', None), ('after run_tasks([Top(l1)])', lambda: (lab.run_tasks([top], disable_progress=True, disable_top=True), model.update({l1, top}))),
+             ('after run_tasks([Leaf(2), Eph(7)])', lambda: (lab.run_tasks([l2, Eph(7)], disable_progress=True, disable_top=True), model.add(l2))),
+             ('after uncache_tasks([Leaf(1)])', lambda: (lab.uncache_tasks([l1]), model.discard(l1))),
+             ('after run_tasks([Top(l1)]) on the cached Top', lambda: lab.run_tasks([top], disable_progress=True, disable_top=True)),
+             ('after run_tasks([Leaf(1)], bust_cache=True)', lambda: (lab.run_tasks([l1], bust_cache=True, disable_progress=True, disable_top=True), model.add(l1)))]
+    for name, act in steps:
+        if act:
+            act()
+        why = agree(name)
+        if why:
+            return why
+    return None
+
+
 def explore(tier='quick'):
     L = 3 if tier == 'quick' else 4
     n = 0
     O = ops()
+    # quick tier: every pair of operations, and every triple over the ten core operations (each task run with and without
+    # bust_cache, uncached alone and together, listed) -- not a prefix of the full product, which would never start with a later op
+    core = [O[0], O[1], O[2], O[6], O[7], O[8], O[9], O[12], O[14], O[15]]
+    for kind in ('local', 'fsspec'):
+        for backend in (('fork',) if tier == 'quick' else ('fork', 'spawn')):
+            with tempfile.TemporaryDirectory() as d:
+                why = process_history(kind, backend, d)
+                n += 1
+                if why:
+                    return dict(reproduced=True, level='api', storage=kind, sequence=[backend], summary=why), n
     for kind in ('local', 'fsspec', 'none'):
-        seqs = itertools.product(O, repeat=L) if kind == 'local' else itertools.product(O[:9] + O[-4:], repeat=2)
+        if kind == 'local':
+            seqs = itertools.chain(itertools.product(O, repeat=2), itertools.product(core, repeat=3)) if tier == 'quick' else itertools.product(O, repeat=L)
+        else:
+            seqs = itertools.product(O[:9] + O[-4:], repeat=2)
         for seq in seqs:
-            if tier == 'quick' and kind == 'local' and n > 1500:
-                break
             with tempfile.TemporaryDirectory() as d:
                 why = run_seq(list(seq) + [('cached_tasks',)], kind, d)
                 n += 1
@@ -153,7 +196,7 @@ def main():
         res, n = dict(reproduced=False, error=traceback.format_exc()[-1500:]), 0
     if not a.obligation:
         print(json.dumps([dict(name='c08:operation-sequences-vs-dict-model', bounded=True,
-                               bound=f'{n} sequences of length <= 3-4 over 4 tasks x (LocalStorage, fsspec LocalFileSystem, storage=None)',
+                               bound=f'{n} sequences of length <= 3-4 over 4 tasks x (LocalStorage, fsspec LocalFileSystem, storage=None), serial backend; plus one 6-step history per storage with the fork (thorough: and spawn) backend, cached_tasks and is_cached compared with the stored entries after every step',
                                violation=bool(res.get('reproduced')), witness=[res] if res.get('reproduced') else [], error=res.get('error'))], default=str))
     else:
         print(json.dumps(res, default=str))
